@@ -3506,3 +3506,29 @@ impl InconsistentTopicStatus {
         status
     }
 }
+
+#[cfg(dust_dds_verif)]
+#[doc(hidden)]
+pub fn verif_get_discovered_reader_incompatible_qos_policy_list(
+    writer_qos: &DataWriterQos,
+    discovered_reader_data: &SubscriptionBuiltinTopicData,
+    publisher_qos: &PublisherQos,
+) -> Vec<QosPolicyId> {
+    get_discovered_reader_incompatible_qos_policy_list(writer_qos, discovered_reader_data, publisher_qos)
+}
+
+#[cfg(dust_dds_verif)]
+#[doc(hidden)]
+pub fn verif_get_discovered_writer_incompatible_qos_policy_list<R: RtpsReader>(
+    data_reader: &DataReaderEntity<R>,
+    publication_builtin_topic_data: &PublicationBuiltinTopicData,
+    subscriber_qos: &SubscriberQos,
+) -> Vec<QosPolicyId> {
+    get_discovered_writer_incompatible_qos_policy_list(data_reader, publication_builtin_topic_data, subscriber_qos)
+}
+
+#[cfg(dust_dds_verif)]
+#[doc(hidden)]
+pub fn verif_fnmatch_to_regex(pattern: &str) -> String {
+    fnmatch_to_regex(pattern)
+}
